@@ -131,8 +131,49 @@ func ruleOU2(c *Ctx) {
 		exits = append(exits, call)
 	}
 	okExit := len(exits) > 0
+	// the status is a non-zero constant, or a value that can only be one (a parameter handed such constants at every
+	// call, the result of a helper that returns nothing else)
+	var nonZero func(v ssa.Value, d int) bool
+	nonZero = func(v ssa.Value, d int) bool {
+		if v == nil || d > 6 {
+			return false
+		}
+		if k, ok := constInt(v); ok {
+			return k != 0
+		}
+		switch x := resolve(v).(type) {
+		case *ssa.Phi:
+			for _, e := range x.Edges {
+				if !nonZero(e, d+1) {
+					return false
+				}
+			}
+			return len(x.Edges) > 0
+		case *ssa.Parameter:
+			args := c.argValues(x.Parent(), paramIndex(x))
+			for _, a := range args {
+				if !nonZero(a, d+1) {
+					return false
+				}
+			}
+			return len(args) > 0
+		case *ssa.Call:
+			cal := calleeOf(&x.Call)
+			if cal == nil || !c.InModule(cal) || cal.Blocks == nil {
+				return false
+			}
+			rets := returnsOf(cal)
+			for _, r := range rets {
+				if len(r.Results) != 1 || !nonZero(returnedValue(r, 0), d+1) {
+					return false
+				}
+			}
+			return len(rets) > 0
+		}
+		return false
+	}
 	for _, x := range exits {
-		if k, ok := constInt(x.Common().Args[0]); !ok || k == 0 {
+		if !nonZero(x.Common().Args[0], 0) {
 			okExit = false
 		}
 	}
@@ -521,6 +562,23 @@ func ruleOU6(c *Ctx) {
 			for _, call := range callsIn(g) {
 				n := calleeFullName(call.Common())
 				isOut := strings.HasPrefix(n, "fmt.Print") || (strings.HasPrefix(n, "fmt.Fprint") && isGlobalLoad(call.Common().Args[0], "Stdout")) || n == ergoPath+".writeJSON"
+				// a line printer of the module (printer.resultLine(a ...any) { fmt.Fprintln(os.Stdout, a...) }): what it is
+				// handed is what it prints
+				if !isOut {
+					if h := calleeOf(call.Common()); h != nil && c.InModule(h) && h.Blocks != nil {
+						for _, inner := range callsIn(h) {
+							in := calleeFullName(inner.Common())
+							if !(strings.HasPrefix(in, "fmt.Print") || (strings.HasPrefix(in, "fmt.Fprint") && len(inner.Common().Args) > 0 && isGlobalLoad(inner.Common().Args[0], "Stdout"))) {
+								continue
+							}
+							for _, a := range inner.Common().Args {
+								if p, ok := strip(a).(*ssa.Parameter); ok && p.Parent() == h {
+									isOut = true
+								}
+							}
+						}
+					}
+				}
 				if !isOut {
 					continue
 				}
